@@ -59,6 +59,11 @@ type Space struct {
 	// MatrixDepth, if non-zero, limits the matrix to the states whose shortest history
 	// has at most that many operations.
 	MatrixDepth int `json:"matrix_depth,omitempty"`
+	// Classes ("quick" / "thorough") makes the space a status-class space
+	// (classes_test.go): macro letters enter precomputed representative states of every
+	// status class, behind them the status-dependent operations are explored to
+	// Depth-1. Such a space runs first, on a budget of its own.
+	Classes string `json:"classes,omitempty"`
 }
 
 func (s Space) worldOpts() worldOpts {
@@ -76,6 +81,9 @@ func (s Space) hashesSorted() []string {
 
 // Alphabet lists the operations simplest-first.
 func (s Space) Alphabet() []string {
+	if s.Classes != "" {
+		return s.classAlphabet()
+	}
 	var a []string
 	hs := s.hashesSorted()
 	for _, h := range hs {
@@ -123,6 +131,13 @@ func spaces(thorough bool) []Space {
 	allDel := [][2]int{{0, 0}, {1, 0}, {0, 1}, {1, 1}}
 	if !thorough {
 		return []Space{
+			{ // status classes x status-dependent operations (classes_test.go)
+				Name:   "status-classes",
+				RegIDs: map[string][]uint64{"h0": ids(1, 2, 3), "h1": ids(4)}, ResIDs: map[string][]uint64{"h0": ids(1, 2, 3), "h1": ids(4)},
+				Amts: []string{"H", "V"}, Kinds: []string{"m", "n"}, Reasons: []int{0},
+				DelAll: allDel, Reopen: true, Query: true, Depth: 2,
+				NoIL: true, QueryMatrix: true, MatrixDepth: 1, Side: true, Classes: "quick",
+			},
 			{ // one payment, the full attempt alphabet of the design
 				Name:   "single-full",
 				RegIDs: map[string][]uint64{"h0": ids(1, 2, 3)}, ResIDs: map[string][]uint64{"h0": ids(1, 2, 3)},
@@ -172,6 +187,20 @@ func spaces(thorough bool) []Space {
 	}
 	// ordered so that the largest space runs last (a deadline then caps only it)
 	return []Space{
+		{ // status classes x status-dependent operations, default SQL configuration
+			Name:   "status-classes",
+			RegIDs: map[string][]uint64{"h0": ids(1, 2, 3, 4), "h1": ids(1, 2, 3, 4)}, ResIDs: map[string][]uint64{"h0": ids(1, 2, 3, 4), "h1": ids(1, 2, 3, 4)},
+			Amts: []string{"H", "V"}, Kinds: []string{"m", "n"}, Reasons: []int{0, 1},
+			DelAll: allDel, Reopen: true, Query: true, Depth: 3,
+			NoIL: true, QueryMatrix: true, MatrixDepth: 1, Side: true, Classes: "thorough",
+		},
+		{ // the same on SQL pages / IN-batches of one item, KVStore without migration
+			Name:   "status-classes-tiny",
+			RegIDs: map[string][]uint64{"h0": ids(1, 2, 3, 4), "h1": ids(1, 2, 3, 4)}, ResIDs: map[string][]uint64{"h0": ids(1, 2, 3, 4), "h1": ids(1, 2, 3, 4)},
+			Amts: []string{"H", "V"}, Kinds: []string{"m", "n"}, Reasons: []int{0},
+			DelAll: allDel, Reopen: true, Query: true, Depth: 2,
+			SQLCfg: "tiny", NoMig: true, Query2: true, NoIL: true, Side: true, Classes: "thorough",
+		},
 		{
 			Name:   "pair-batch1-page2",
 			RegIDs: map[string][]uint64{"h0": ids(1, 2), "h1": ids(3)}, ResIDs: map[string][]uint64{"h0": ids(1, 2), "h1": ids(3)},
@@ -315,7 +344,14 @@ func runSpace(run *evid.Run, sp Space, st *Stats, pool *sqlPool, deadline time.T
 		New: func(worker int) (seqmc.Sys, error) {
 			wo := sp.worldOpts()
 			wo.pool, wo.worker, wo.rep, wo.st = pool, worker, rep, st
-			return newWorld(wo)
+			w, err := newWorld(wo)
+			if err != nil {
+				return nil, err
+			}
+			if sp.Classes != "" {
+				return newClassWorld(w, sp.Classes), nil
+			}
+			return w, nil
 		},
 		Alphabet:     sp.Alphabet(),
 		NoFastReplay: os.Getenv("C16_NOFASTREPLAY") != "",
@@ -325,9 +361,14 @@ func runSpace(run *evid.Run, sp Space, st *Stats, pool *sqlPool, deadline time.T
 		Stop:         func() bool { return !theGate.listAll && run.Violations() >= 8 },
 		Expandable:   func(key string) bool { return !strings.HasPrefix(key, "DEAD:") },
 		OnState: func(s seqmc.Sys, hist []string) {
-			w := s.(*World)
+			w := worldOf(s)
 			if w.dead != "" {
 				return
+			}
+			if sp.Classes != "" && len(hist) == 1 {
+				if _, ok := gotoIndex(hist[0]); ok {
+					st.clause("class-cell:" + classCell(w))
+				}
 			}
 			if !sp.NoIL {
 				explored.add(sp.Name, hist, 4)
@@ -421,9 +462,12 @@ func TestC16(t *testing.T) {
 	// the transaction-boundary pass get their own (deadlines only stop exploration)
 	// (the small "side" spaces run first on a budget of their own: on a loaded machine
 	// the large spaces use up theirs, and the side spaces must not be starved)
-	budget, ilBudget, sideBudget := 120*time.Second, 40*time.Second, 45*time.Second
+	budget, ilBudget, sideBudget, classBudget := 120*time.Second, 40*time.Second, 45*time.Second, 40*time.Second
 	if run.Thorough() {
-		budget, ilBudget, sideBudget = 14*time.Minute, 150*time.Second, 5*time.Minute
+		budget, ilBudget, sideBudget, classBudget = 14*time.Minute, 150*time.Second, 5*time.Minute, 4*time.Minute
+	}
+	if n := envInt("C16_CLASS_BUDGET_S", 0); n > 0 {
+		classBudget = time.Duration(n) * time.Second
 	}
 	if n := envInt("VERIF_BUDGET_S", 0); n > 0 {
 		budget = time.Duration(n) * time.Second
@@ -431,8 +475,8 @@ func TestC16(t *testing.T) {
 	if n := envInt("C16_SIDE_BUDGET_S", 0); n > 0 {
 		sideBudget = time.Duration(n) * time.Second
 	}
-	sideDeadline := time.Now().Add(sideBudget)
-	var deadline time.Time // of the main spaces: set when the first of them starts
+	var sideDeadline time.Time // of the side spaces: set when the first of them starts
+	var deadline time.Time     // of the main spaces: set when the first of them starts
 	if pf := os.Getenv("C16_CPUPROFILE"); pf != "" {
 		if f, err := os.Create(pf); err == nil {
 			_ = pprof.StartCPUProfile(f)
@@ -472,18 +516,29 @@ func TestC16(t *testing.T) {
 	// side spaces first (in the listed order), then the main spaces
 	ordered := make([]Space, 0, len(sps))
 	for _, sp := range sps {
-		if sp.Side {
+		if sp.Classes != "" {
 			ordered = append(ordered, sp)
 		}
 	}
 	for _, sp := range sps {
-		if !sp.Side {
+		if sp.Side && sp.Classes == "" {
+			ordered = append(ordered, sp)
+		}
+	}
+	for _, sp := range sps {
+		if !sp.Side && sp.Classes == "" {
 			ordered = append(ordered, sp)
 		}
 	}
 	for _, sp := range ordered {
+		if sideDeadline.IsZero() && sp.Classes == "" {
+			sideDeadline = time.Now().Add(sideBudget)
+		}
 		dl := sideDeadline
-		if !sp.Side {
+		if sp.Classes != "" {
+			// every status-class space gets its own budget
+			dl = time.Now().Add(classBudget)
+		} else if !sp.Side {
 			if deadline.IsZero() {
 				deadline = time.Now().Add(budget)
 			}
@@ -506,6 +561,7 @@ func TestC16(t *testing.T) {
 			caps = append(caps, r.res.CapHit+" in space "+sp.Name)
 		}
 		perSpace = append(perSpace, map[string]any{
+			"representative_states": len(classSeeds(sp.Classes)),
 			"space": sp.Name, "alphabet_size": len(sp.Alphabet()), "depth_bound": sp.Depth,
 			"states": r.res.States, "states_per_depth": r.res.PerDepth, "transitions": r.res.Transitions,
 			"self_loops": r.res.SelfLoops, "fresh_instances": r.res.Replays, "unexpanded_states": r.res.Unexpanded,
